@@ -38,8 +38,8 @@ type OpOut struct {
 	InfoOutputs []string
 	InfoTouched bool
 
-	InfoShared  bool // the Info struct had been used by an earlier call
-	InfoPreID   int
+	InfoShared bool // the Info struct had been used by an earlier call
+	InfoPreID  int
 
 	Text string // Visualize / String output
 	CanV bool   // CanVisualizeError(err) for failed ops
